@@ -6,6 +6,7 @@ pub mod exchange;
 pub mod framing;
 pub mod head;
 pub mod headers;
+pub mod logfiles;
 pub mod logjson;
 pub mod response;
 pub mod server;
@@ -32,6 +33,8 @@ pub fn run(args: &Args, out: Out) {
         "date-sweep" => calendar::run_sweep(args, out),
         "json-scalars" => logjson::run_scalars(args, out),
         "json-lines" => logjson::run_lines(args, out),
+        "logwriter-run" => logfiles::run_writer(args, out),
+        "fileset-ops" => logfiles::run_fileset(args, out),
         "cookie-set" => cookies::run_set(args, out),
         "cookie-req" => cookies::run_req(args, out),
         "headers-enum" => headers::run_enum(args, out),
